@@ -17,45 +17,60 @@ Ltac names :=
 
 (* ---- anstyle_query (non-Windows configuration) --------------------------------------- *)
 
+(* The probes are a few tests on `e NAME`.  [ch_probe] does not follow the shape of the generated term: it unfolds
+   the Option / OsStr adapters on both sides, then destructs whatever the goal still branches on (a variable, a
+   lookup `e NAME`, a comparison `ch_bytes_eq a b` -- the same term on both sides), so that `x.unwrap_or_default()`,
+   `match x { Some(v) => .., None => .. }`, `if let`, `let .. else`, `x.map(..).unwrap_or(..)`, `!x.is_none()` ..
+   are all accepted, and a different answer in any case is not *)
+Ltac ch_probe :=
+  unfold ch_non_empty, ch_unwrap_or, opt_unwrap_or, opt_is_some, opt_is_none, ch_is_empty, ch_opt_eqb; names;
+  cbv beta zeta; cbn [existsb];
+  repeat (match goal with
+          | |- context [match ?x with _ => _ end] => is_var x; destruct x
+          | |- context [match ?f ?k with _ => _ end] => is_var f; destruct (f k)
+          | |- context [ch_bytes_eq ?a ?b] => destruct (ch_bytes_eq a b)
+          end; cbv beta iota zeta);
+  reflexivity.
+
 Lemma g_non_empty_eq e v : g_non_empty e v = ch_non_empty v.
-Proof. reflexivity. Qed.
+Proof. unfold g_non_empty. ch_probe. Qed.
 
 Lemma g_clicolor_eq e : g_clicolor e = Some (ch_clicolor e).
-Proof. unfold g_clicolor, ch_clicolor. names. destruct (e _); reflexivity. Qed.
+Proof. unfold g_clicolor, ch_clicolor. ch_probe. Qed.
 
 Lemma g_clicolor_force_eq e : g_clicolor_force e = ch_clicolor_force e.
-Proof. unfold g_clicolor_force, ch_clicolor_force. rewrite g_non_empty_eq. reflexivity. Qed.
+Proof. unfold g_clicolor_force, ch_clicolor_force. rewrite ?g_non_empty_eq. ch_probe. Qed.
 
 Lemma g_no_color_eq e : g_no_color e = ch_no_color e.
-Proof. unfold g_no_color, ch_no_color. rewrite g_non_empty_eq. reflexivity. Qed.
+Proof. unfold g_no_color, ch_no_color. rewrite ?g_non_empty_eq. ch_probe. Qed.
 
 Lemma g_term_supports_color_eq e : g_term_supports_color e = Some (ch_term_supports_color e).
-Proof.
-  unfold g_term_supports_color, ch_term_supports_color. names. cbv zeta.
-  destruct (e _) as [k|]; [|reflexivity]. destruct (ch_bytes_eq k _); reflexivity.
-Qed.
+Proof. unfold g_term_supports_color, ch_term_supports_color. ch_probe. Qed.
 
 Lemma g_term_supports_ansi_color_eq e : g_term_supports_ansi_color e = Some (ch_term_supports_ansi_color e).
-Proof. unfold g_term_supports_ansi_color, ch_term_supports_ansi_color. rewrite g_term_supports_color_eq. reflexivity. Qed.
-
-Lemma g_truecolor_eq e : g_truecolor e = ch_truecolor e.
 Proof.
-  unfold g_truecolor, ch_truecolor. names. cbv zeta. cbn [existsb].
-  rewrite ?orb_false_r, ?orb_assoc. reflexivity.
+  unfold g_term_supports_ansi_color, ch_term_supports_ansi_color. rewrite ?g_term_supports_color_eq.
+  unfold ch_term_supports_color. ch_probe.
 Qed.
 
+Lemma g_truecolor_eq e : g_truecolor e = ch_truecolor e.
+Proof. unfold g_truecolor, ch_truecolor. ch_probe. Qed.
+
 Lemma g_is_ci_eq e : g_is_ci e = ch_is_ci e.
-Proof. reflexivity. Qed.
+Proof. unfold g_is_ci, ch_is_ci. ch_probe. Qed.
 
 (* ---- colorchoice: the atomic and the global -------------------------------------------- *)
 
 Lemma g_from_choice_eq c : g_from_choice c = Some (ch_from_choice c).
 Proof. destruct c; reflexivity. Qed.
 
+(* by the binary digits of [n] (0, 1, 2, 3, and the eight shapes of a number >= 4): every comparison with a
+   literal below 8 computes, whichever way round and in whichever order the arms are tested *)
 Lemma g_to_choice_eq n : g_to_choice n = Some (ch_to_choice n).
 Proof.
   unfold g_to_choice, ch_to_choice.
-  repeat match goal with |- context [if (n =? ?k) then _ else _] => destruct (n =? k) end; reflexivity.
+  destruct n as [|p]; [reflexivity|].
+  destruct p as [p|p|]; [| |reflexivity]; (destruct p as [p|p|]; [| |reflexivity]); destruct p; reflexivity.
 Qed.
 
 Lemma g_atomic_new_eq : g_atomic_new = Some ch_atomic_new.
@@ -89,20 +104,20 @@ Proof. unfold g_color_write_global. rewrite g_as_choice_eq, g_write_global_eq. r
 
 (* ---- anstream::auto::choice ---------------------------------------------------------------- *)
 
+(* robust to the spelling of the decision (if/else chain | early returns | a private helper that is inlined |
+   `x.unwrap_or(false)` | `x == Some(true)` | a `match` on the option ..): the callees are replaced by their hand
+   models wherever they occur, then the decision is compared on the whole truth table of the probes
+   (2 * 2 * 3 * 2 * 2 * 2 = 96 closed cases); no step depends on the shape of the generated term *)
 Lemma g_choice_eq e user raw : g_choice e user raw = ch_choice_fn e user raw.
 Proof.
   unfold g_choice, ch_choice_fn. rewrite g_global_eq.
   destruct (ch_global user) as [g|]; [|reflexivity].
   destruct g; try reflexivity.
-  unfold choice_model. rewrite g_clicolor_eq, g_no_color_eq, g_clicolor_force_eq, g_term_supports_color_eq, g_is_ci_eq.
-  cbv zeta. unfold ch_raw_is_terminal.
-  change (@opt_unwrap_or bool) with (@ch_unwrap_or bool).
-  destruct (ch_no_color e); [reflexivity|].
-  destruct (ch_clicolor_force e); [reflexivity|].
-  destruct (negb (ch_unwrap_or (ch_clicolor e) true)); [reflexivity|].
-  destruct raw; [|reflexivity].
-  cbn [andb].
-  destruct (ch_term_supports_color e || ch_unwrap_or (ch_clicolor e) false || ch_is_ci e); reflexivity.
+  unfold choice_model.
+  rewrite ?g_clicolor_eq, ?g_no_color_eq, ?g_clicolor_force_eq, ?g_term_supports_color_eq, ?g_is_ci_eq.
+  unfold ch_raw_is_terminal.
+  destruct (ch_no_color e), (ch_clicolor_force e), (ch_clicolor e) as [[|]|], raw, (ch_term_supports_color e), (ch_is_ci e);
+    reflexivity.
 Qed.
 
 (* AutoStream::<S>::choice(&raw) forwards to it *)
